@@ -317,6 +317,17 @@ def rule_c(ctx):
                 ok, detail = False, 'the route is %s, not the first tag of the routing item' % fmt_term(t)[:80]
         elif p.outcome == 'raise':
             n_raise += 1
+        # an entry that is not routing metadata (authentication, a MIME type) is passed over: the scan goes on to
+        # the next entry - the route need not be the first entry of the composite metadata
+        evs = [e for e in p.events if e.kind in ('loop', 'cond')]
+        for i_, e in enumerate(evs):
+            if e.kind == 'cond' and e.data['key'][0] == 'isinstance' and 'RoutingMetadata' in repr(e.data['key'][2]) \
+                    and e.data['value'] is False:
+                nxt = [x for x in evs[i_ + 1:] if x.kind == 'loop']
+                if not nxt or nxt[0].data.get('phase') != 'back':
+                    ok, detail = False, ('the scan stops at the first entry that is not routing metadata: a route '
+                                         'behind an authentication or MIME-type entry is not found, and with a '
+                                         'verifier configured the gate is never consulted for such a request')
     if not n_found or not n_raise:
         ok, detail = False, 'require_route lacks a %s path' % ('returning' if not n_found else 'raising')
     rep.add('C19.c', 'require_route / first tag of the first routing item, else error', f, ok,
